@@ -66,6 +66,30 @@ type want struct {
 const oracleSteps = 400000
 
 func oracle(g *rg.G) *want {
+	w := polynomialPart(g, false)
+	if w.maxMu <= 22 {
+		if c, ok := conn.Cycles(g, &conn.Budget{Steps: oracleSteps}); ok {
+			w.cycles = c
+		}
+	}
+	bc, bp := &conn.Budget{Steps: oracleSteps}, &conn.Budget{Steps: oracleSteps}
+	if c, ok := conn.InducedCycles(g, bc); ok {
+		w.indCycles = c
+	}
+	if c, ok := conn.InducedPaths(g, bp); ok {
+		w.indPaths = c
+	}
+	w.indSteps = bc.Used + bp.Used
+	return w
+}
+
+const girthUnknown = -2
+
+// polynomialPart computes everything that has a polynomial definition-level
+// oracle.  large selects the n-search block oracle, and leaves the girth
+// unknown when the edge-deletion oracle would need more than about 4e7 steps
+// (the caller then supplies a closed form).
+func polynomialPart(g *rg.G, large bool) *want {
 	n := g.N
 	w := &want{n: n}
 	w.dist = conn.Dist(g)
@@ -104,9 +128,17 @@ func oracle(g *rg.G) *want {
 			}
 		}
 	}
-	w.girth = conn.Girth(g)
+	if m := g.M(); large && m*(n+m) > 40000000 {
+		w.girth = girthUnknown
+	} else {
+		w.girth = conn.Girth(g)
+	}
 	w.art = conn.Articulation(g)
-	w.blocks, w.isolated = conn.Blocks(g)
+	if large {
+		w.blocks, w.isolated = conn.BlocksFast(g)
+	} else {
+		w.blocks, w.isolated = conn.Blocks(g)
+	}
 	for _, b := range w.blocks {
 		m := 0
 		for i := range b {
@@ -120,19 +152,6 @@ func oracle(g *rg.G) *want {
 			w.maxMu = mu
 		}
 	}
-	if w.maxMu <= 22 {
-		if c, ok := conn.Cycles(g, &conn.Budget{Steps: oracleSteps}); ok {
-			w.cycles = c
-		}
-	}
-	bc, bp := &conn.Budget{Steps: oracleSteps}, &conn.Budget{Steps: oracleSteps}
-	if c, ok := conn.InducedCycles(g, bc); ok {
-		w.indCycles = c
-	}
-	if c, ok := conn.InducedPaths(g, bp); ok {
-		w.indPaths = c
-	}
-	w.indSteps = bc.Used + bp.Used
 	return w
 }
 
@@ -253,7 +272,10 @@ func hold(c *engine.Ctx, key string, h *rg.G, rep string, variant int, r *engine
 			host = big.Sparse()
 			out.extra["host"] = "sparse"
 		}
-		out.extra["host_g6"] = big.G6()
+		if big.N <= 62 {
+			out.extra["host_g6"] = big.G6()
+		}
+		out.extra["host_extra_vertices"] = x
 		out.extra["V"] = V
 		if pi := c.Call(key+"|InducedSubgraph", func() { out.g = graph.InducedSubgraph(host, V) }); pi != nil {
 			return nil, pi
@@ -327,10 +349,27 @@ type gcase struct {
 	info     map[string]interface{} // base graph, permutation, ...
 	cycleCap int                    // largest block cyclomatic number for which NumberOfCycles is called
 	expCap   bool                   // call the exponential induced counters
+	wit      string                 // witness part of the keys: "g6=..." or, for large graphs, "graph=<name>/<labelling>"
+	large    *sampling              // large graphs: which pairs / vertices / bounds are tried (nil: everything)
+}
+
+// sampling says what is tried on a large graph, where all pairs times all
+// functions would cost minutes.
+type sampling struct {
+	pairs      [][2]int // Distance arguments
+	verts      []int    // ConnectedComponent arguments
+	bounds     []int    // maxLength values for NumberOfInducedCycles (nil: not called)
+	pathBounds []int    // maxLength values for NumberOfInducedPaths (nil: not called)
 }
 
 func (t *gcase) detail(more ...interface{}) map[string]interface{} {
-	d := map[string]interface{}{"workload": t.workload, "g6": t.g6, "n": t.h.N, "graph": t.h.String(), "representation": t.rep}
+	d := map[string]interface{}{"workload": t.workload, "n": t.h.N, "m": t.h.M(), "representation": t.rep}
+	if t.h.N <= 62 {
+		d["g6"] = t.g6
+		d["graph"] = t.h.String()
+	} else {
+		d["graph_id"] = t.wit
+	}
 	for k, v := range t.extra {
 		d["rep_"+k] = v
 	}
@@ -345,11 +384,11 @@ func (t *gcase) detail(more ...interface{}) map[string]interface{} {
 
 func (t *gcase) panicked(api string, pi *engine.PanicInfo, expected string, more ...interface{}) {
 	t.c.Obs("panics_judged:"+api, 1)
-	t.c.Violation(fmt.Sprintf("%s|panic|%s|g6=%s", api, engine.SiteNoLine(pi.Site), t.g6), t.detail(more...), pi.String(), expected)
+	t.c.Violation(fmt.Sprintf("%s|panic|%s|%s", api, engine.SiteNoLine(pi.Site), t.wit), t.detail(more...), pi.String(), expected)
 }
 
 func (t *gcase) wrong(api, witness string, observed, expected string, more ...interface{}) {
-	key := fmt.Sprintf("%s|wrong|g6=%s", api, t.g6)
+	key := fmt.Sprintf("%s|wrong|%s", api, t.wit)
 	if witness != "" {
 		key += "|" + witness
 	}
@@ -362,7 +401,7 @@ func (t *gcase) wrong(api, witness string, observed, expected string, more ...in
 // minutes (its cost per extended path is 3..30 microseconds).
 func (t *gcase) bounds() []int {
 	w, n := t.w, t.h.N
-	if !t.expCap || w.indCycles == nil || w.indPaths == nil || w.indSteps > 60000 {
+	if t.large != nil || !t.expCap || w.indCycles == nil || w.indPaths == nil || w.indSteps > 60000 {
 		return nil
 	}
 	if w.indSteps > 4000 {
@@ -394,7 +433,7 @@ func canonSets(a [][]int) ([][]int, bool) {
 
 func (t *gcase) run() {
 	c, w, lg, n := t.c, t.w, t.lg, t.h.N
-	ck := t.rep + "|" + t.g6 + "|"
+	ck := t.rep + "|" + t.wit + "|"
 	c.Obs("rep:"+t.rep, 1)
 	c.Obs(fmt.Sprintf("n=%d", n), 1)
 
@@ -402,19 +441,36 @@ func (t *gcase) run() {
 	{
 		ci, cj, got := 0, 0, 0
 		bad := false
-		pi := c.Call(ck+"Distance", func() {
-			for ci = 0; ci < n; ci++ {
-				for cj = 0; cj < n; cj++ {
+		calls := n * n
+		var pi *engine.PanicInfo
+		if t.large == nil {
+			pi = c.Call(ck+"Distance", func() {
+				for ci = 0; ci < n; ci++ {
+					for cj = 0; cj < n; cj++ {
+						got = graph.Distance(lg, ci, cj)
+						if got != w.dist[ci][cj] {
+							bad = true
+							return
+						}
+					}
+				}
+			})
+		} else {
+			calls = len(t.large.pairs)
+			pi = c.Call(ck+"Distance", func() {
+				for _, pr := range t.large.pairs {
+					ci, cj = pr[0], pr[1]
 					got = graph.Distance(lg, ci, cj)
 					if got != w.dist[ci][cj] {
 						bad = true
 						return
 					}
 				}
-			}
-		})
-		c.Obs("calls:Distance", n*n)
-		c.Eval(n * n)
+			})
+			c.Obs("large:calls:Distance", calls)
+		}
+		c.Obs("calls:Distance", calls)
+		c.Eval(calls)
 		if pi != nil {
 			t.panicked("Distance", pi, fmt.Sprintf("Distance(%d,%d)=%d", ci, cj, w.dist[ci][cj]), "i", ci, "j", cj)
 		} else if bad {
@@ -450,7 +506,15 @@ func (t *gcase) run() {
 		}
 	}
 	// ConnectedComponent of every vertex
-	for v := 0; v < n; v++ {
+	ccVerts := []int{}
+	if t.large != nil {
+		ccVerts = t.large.verts
+	} else {
+		for v := 0; v < n; v++ {
+			ccVerts = append(ccVerts, v)
+		}
+	}
+	for _, v := range ccVerts {
 		var got []int
 		pi := c.Call(ck+fmt.Sprintf("ConnectedComponent(%d)", v), func() { got = graph.ConnectedComponent(lg, v) })
 		c.Obs("calls:ConnectedComponent", 1)
@@ -553,7 +617,11 @@ func (t *gcase) run() {
 		}
 	}
 	// NumberOfInducedCycles / NumberOfInducedPaths for every bound
-	if mls := t.bounds(); mls == nil {
+	mls, pls := t.bounds(), t.bounds()
+	if t.large != nil {
+		mls, pls = t.large.bounds, t.large.pathBounds
+	}
+	if mls == nil && pls == nil {
 		c.Obs("skipped:induced_counters_over_budget", 1)
 	} else {
 		for _, ml := range mls {
@@ -581,7 +649,7 @@ func (t *gcase) run() {
 				}
 			}
 		}
-		for _, ml := range mls {
+		for _, ml := range pls {
 			bound := ml
 			if ml < 0 || ml > n-1 {
 				bound = n - 1
@@ -627,6 +695,9 @@ type plan struct {
 	w        *want // precomputed expectation (optional)
 	info     map[string]interface{}
 	viewRng  func(k int, rep string) *engine.Rng
+	// large graphs (n > 62 has no short graph6): name used in keys, and the sampling of arguments
+	largeID  string
+	sampling func(k int, h *rg.G, wh *want) *sampling
 }
 
 func classify(c *engine.Ctx, g *rg.G, w *want) {
@@ -686,7 +757,9 @@ func runBase(c *engine.Ctx, g *rg.G, p *plan) {
 		if perm != nil {
 			h = g.Induced(perm)
 			wh = w.relabel(perm)
-			info["base_g6"] = g.G6()
+			if g.N <= 62 {
+				info["base_g6"] = g.G6()
+			}
 			info["relabelling"] = perm
 			info["relabelling_kind"] = p.permKind[k]
 			c.Obs("relabelled_cases", 1)
@@ -700,6 +773,13 @@ func runBase(c *engine.Ctx, g *rg.G, p *plan) {
 			}
 		}
 		g6 := h.G6()
+		wit := "g6=" + g6
+		var smp *sampling
+		if p.largeID != "" {
+			g6 = p.largeID + "/" + p.permKind[k]
+			wit = "graph=" + g6
+			smp = p.sampling(k, h, wh)
+		}
 		for _, rep := range p.reps[k] {
 			key := rep + "|" + g6
 			hd, pi := hold(c, key, h, rep, k, p.viewRng(k, rep))
@@ -712,7 +792,7 @@ func runBase(c *engine.Ctx, g *rg.G, p *plan) {
 				c.Sample("representation-broken", map[string]interface{}{"g6": g6, "rep": rep, "what": msg})
 				continue
 			}
-			t := &gcase{c: c, workload: p.workload, h: h, g6: g6, w: wh, rep: rep, lg: hd.g, extra: hd.extra, info: info, cycleCap: p.cycleCap[k], expCap: p.expCap}
+			t := &gcase{c: c, workload: p.workload, h: h, g6: g6, w: wh, rep: rep, lg: hd.g, extra: hd.extra, info: info, cycleCap: p.cycleCap[k], expCap: p.expCap, wit: wit, large: smp}
 			t.run()
 			if h.N >= 4 && h.M() >= 2 {
 				c.NT(g6, rep)
